@@ -194,6 +194,55 @@ theorem go_native_endian_is_machine_endian :
     (∀ x ∈ machineBigEndian, nativeEndianOk x = true)
     ∧ (∀ a ∈ archesAll, machineBigEndian.any (fun x => nameEq x.1 a) = true) := by decide +kernel
 
+/-- **Programs and map kinds.** Every `{Prog, Attach}` pair of the control plane names a program whose
+ELF section is the one that attach type requires; every program the control plane refers to is
+attached that way or is a `tc/…` classifier; every map name the loader looks up in the collection spec
+exists; every map has the kind the control plane's use of it presupposes, and `newLpmMap` creates the
+kind `unused_lpm_type` declares. -/
+theorem programs_and_map_kinds_agree :
+    (∀ x ∈ Gen.goProgAttach, progAttachOk x = true) ∧ (∀ p ∈ Gen.goProgUses, progUseOk p = true)
+    ∧ (∀ n ∈ Gen.goSpecMapRefs, (findMap n Gen.cMaps).isSome = true)
+    ∧ (∀ x ∈ goMapKindExpect, mapKindOk x = true) ∧ (∀ x ∈ Gen.goNewMapTypes, newMapTypeOk x = true) := by
+  decide +kernel
+
+example : Gen.goProgAttach.length ≥ 6 ∧ Gen.goProgUses.length ≥ 10 := by decide +kernel
+
+/-- **Build-time override of `MAX_MATCH_SET_LEN`.** One Makefile variable feeds both sides, its default is
+both sources' default, and the C program recompiled with 2048 has bitmap words × 32 = `routing_map` size =
+2048 and `lpm_array_map` = `MAX_LPM_NUM` = 2056. (The Go struct for a non-default value is bpf2go
+output and cannot be regenerated offline.) -/
+theorem max_match_set_len_override_consistent : overrideConsistent = true := by decide +kernel
+
+/-- **Widths of the generated enumerations.** For ANY spec that fits the Go declarations (`uint8`: at
+most 256 match types, values below 256) every generated value fits the byte it is stored in on both
+sides; the checked-in spec fits; and the storage widths are as assumed (`match_set.type`/`outbound`
+one byte on both sides; `l4proto_type`/`ip_version` 4-byte C enums of which the kernel uses the low byte). -/
+theorem generated_values_fit_their_storage (s : Spec) (h : specFits s = true) :
+    (∀ x ∈ (genGo s).all, x.2 < 256) ∧ (∀ x ∈ (genC s).all, x.2 < 256) := by
+  unfold specFits at h
+  simp only [Bool.and_eq_true, decide_eq_true_eq, List.all_eq_true] at h
+  obtain ⟨⟨⟨hm, ho⟩, hl⟩, hi⟩ := h
+  have hidx : ∀ (l : List Name) (i : Nat), ∀ x ∈ enumFrom i l, x.2 < i + l.length := by
+    intro l
+    induction l with
+    | nil => intro i x hx; simp [enumFrom] at hx
+    | cons a as ih =>
+      intro i x hx
+      simp only [enumFrom, List.mem_cons] at hx
+      rcases hx with rfl | hx
+      · simp
+      · have := ih (i + 1) x hx; simp only [List.length_cons]; omega
+  constructor <;>
+  · intro x hx
+    simp only [GenOut.all, genGo, genC, List.mem_append, List.mem_map] at hx
+    rcases hx with ((⟨y, hy, rfl⟩ | ⟨y, hy, rfl⟩) | ⟨y, hy, rfl⟩) | ⟨y, hy, rfl⟩
+    · have := hidx _ 0 y hy; simp only; omega
+    · exact ho y hy
+    · exact hl y hy
+    · exact hi y hy
+
+theorem checked_in_spec_fits : specFits Gen.specData = true ∧ enumStorageOk = true := by decide +kernel
+
 /-! ## C. Map keys, byte for byte -/
 
 /-- The byte-level key images below are laid out as the regenerated C and Go layouts say (member
